@@ -38,6 +38,14 @@ var pureInvokePrefixes = []string{
 	"(crypto.PublicKey).", "(crypto.Signer).Public",
 }
 
+// pureInvoke: interface methods of the standard crypto packages and the listed library interfaces.
+func pureInvoke(full string) bool {
+	if strings.HasPrefix(full, "(crypto/") || strings.HasPrefix(full, "(crypto.") || strings.HasPrefix(full, "(hash.") || strings.HasPrefix(full, "(golang.org/x/crypto/") {
+		return true
+	}
+	return hasAnyPrefix(full, pureInvokePrefixes)
+}
+
 func hasAnyPrefix(s string, ps []string) bool {
 	for _, p := range ps {
 		if strings.HasPrefix(s, p) {
@@ -98,7 +106,7 @@ func externalMods(fn *ssa.Function) ([]string, bool) {
 
 func invokeMods(c *ssa.CallCommon) ([]string, bool) {
 	full := "(" + fullType(c.Value.Type()) + ")." + c.Method.Name()
-	if hasAnyPrefix(full, pureInvokePrefixes) {
+	if pureInvoke(full) {
 		return []string{"$alloc", "M$uint8", "M$byte"}, true
 	}
 	return nil, false
@@ -375,6 +383,15 @@ func (f *frame) intrinsic(full string, callee *ssa.Function, c *ssa.CallCommon, 
 		vc.assume(mkImplies(mkEq(ifTyp(e), i64(0)), mkEq(n, slLen(s))))
 		return []Term{n, e}, true
 	}
+	if full == "time.NewTimer" || full == "time.AfterFunc" || full == "time.NewTicker" {
+		vc.trust(full + " (returns a non-nil timer)")
+		a := f.alloc(i64(8))
+		vc.assume(ule(i64(4096), a))
+		if full == "time.AfterFunc" {
+			return []Term{a}, true
+		}
+		return []Term{a}, true
+	}
 	if hasAnyPrefix(full, pureExternalPrefixes) {
 		vc.trust(full + " (pure, result unconstrained)")
 		// result arbitrary, no heap effect beyond allocation
@@ -433,7 +450,7 @@ func (f *frame) atomicFn(callee *ssa.Function, c *ssa.CallCommon, args []Term, p
 func (f *frame) intrinsicInvoke(full string, c *ssa.CallCommon, args []Term, pos token.Pos) ([]Term, bool) {
 	vc := f.vc
 	sig := c.Signature()
-	if hasAnyPrefix(full, pureInvokePrefixes) {
+	if pureInvoke(full) {
 		vc.trust(full + " (no effect on program state, result unconstrained)")
 		mods := map[string]bool{"$alloc": true}
 		switch c.Method.Name() {
